@@ -68,6 +68,19 @@ def handle : List String → Option String
     match lagrangeDeriv xs rows dim w be srt s xnew dx with
     | .error e => pure ("err " ++ showErr e)
     | .ok (v, d) => pure ("ok " ++ showRows v ++ " " ++ showRows d)
+  | ["c20", "barycentric", dim, xs, rows, xnew] => do
+    let dim ← dim.toNat?
+    let xs ← parseRats? xs; let rows ← parseRows? rows; let xnew ← parseRats? xnew
+    pure (showExc (barycentric xs rows dim xnew))
+  | ["c20", "normsq", rows] => do
+    let rows ← parseRows? rows
+    pure (showRats (rows.map normSq))
+  | ["c20", "unitvec", ns, rows] => do
+    let ns ← parseRats? ns; let rows ← parseRows? rows
+    pure (showRows (List.zipWith unitVector rows ns))
+  | ["c20", "take", i, rows] => do
+    let i ← i.toNat?; let rows ← parseRows? rows
+    pure (showRats (takeLast rows i))
   | ["c20", "linear", dim, xs, rows, xnew] => do
     let dim ← dim.toNat?
     let xs ← parseRats? xs; let rows ← parseRows? rows; let xnew ← parseRats? xnew
@@ -83,6 +96,10 @@ def handle : List String → Option String
     match plateVelocity model plate p ⟨x, y, z⟩ with
     | none => pure "unknown"
     | some v => pure s!"ok {showRat v.x} {showRat v.y} {showRat v.z}"
+  | ["c20", "tocart", cl, sl, co, so, w] => do
+    let cl ← parseRat? cl; let sl ← parseRat? sl; let co ← parseRat? co; let so ← parseRat? so; let w ← parseRat? w
+    let v := toCartesianQ cl sl co so w
+    pure s!"{showRat v.x} {showRat v.y} {showRat v.z} {showRat (omegaSq v)}"
   | ["c20", "linreg", rej, f, it, xs, ys] => do
     let rej ← parseBool? rej; let f ← parseRat? f; let it ← it.toNat?
     let xs ← parseRats? xs; let ys ← parseRats? ys
